@@ -2,6 +2,7 @@ package main
 
 import (
 	"fmt"
+	"math/big"
 
 	sdk "github.com/cosmos/cosmos-sdk/types"
 	abci "github.com/tendermint/tendermint/abci/types"
@@ -13,14 +14,14 @@ import (
 
 type c07Snap struct {
 	plans map[string]storagetypes.StoragePaymentInfo
-	foot  map[string]int64 // owner -> footprint of live plan-paid files
+	foot  map[string]*big.Int // owner -> footprint of live plan-paid files (no int64 wrap-around)
 	files map[string]bool
 }
 
 func c07Read(w *World) (c07Snap, error) {
 	gctx := sdk.WrapSDKContext(w.Ctx())
 	k := w.node().app.StorageKeeper
-	s := c07Snap{plans: map[string]storagetypes.StoragePaymentInfo{}, foot: map[string]int64{}, files: map[string]bool{}}
+	s := c07Snap{plans: map[string]storagetypes.StoragePaymentInfo{}, foot: map[string]*big.Int{}, files: map[string]bool{}}
 	pr, err := k.AllStoragePaymentInfo(gctx, &storagetypes.QueryAllStoragePaymentInfo{Pagination: bigPage()})
 	if err != nil {
 		return s, err
@@ -43,7 +44,10 @@ func c07Read(w *World) (c07Snap, error) {
 		for _, f := range r.Files {
 			s.files[fkey(f.Merkle, f.Owner, f.Start)] = true
 			if f.Expires == 0 && f.Owner == ow {
-				s.foot[ow] += f.FileSize * f.MaxProofs
+				if s.foot[ow] == nil {
+					s.foot[ow] = new(big.Int)
+				}
+				s.foot[ow].Add(s.foot[ow], new(big.Int).Mul(big.NewInt(f.FileSize), big.NewInt(f.MaxProofs)))
 			}
 		}
 	}
@@ -62,8 +66,12 @@ func (o *oracleC07) check(w *World, s c07Snap, where string) {
 	k := w.node().app.StorageKeeper
 	for _, a := range sortedKeys(s.plans) {
 		p := s.plans[a]
-		if p.SpaceUsed != s.foot[a] {
-			w.Violate("C07:usage≠footprint:"+where, "account %s: plan reports %d bytes used, live plan-paid files total %d", a, p.SpaceUsed, s.foot[a])
+		foot := s.foot[a]
+		if foot == nil {
+			foot = new(big.Int)
+		}
+		if big.NewInt(p.SpaceUsed).Cmp(foot) != 0 {
+			w.Violate("C07:usage≠footprint:"+where, "account %s: plan reports %d bytes used, live plan-paid files total %s", a, p.SpaceUsed, foot)
 		}
 		if p.SpaceUsed < 0 {
 			w.Violate("C07:usage-negative", "account %s: SpaceUsed=%d", a, p.SpaceUsed)
@@ -72,8 +80,8 @@ func (o *oracleC07) check(w *World, s c07Snap, where string) {
 			w.Violate("C07:usage>available", "account %s: used %d of %d", a, p.SpaceUsed, p.SpaceAvailable)
 		}
 		fr, err := k.GetClientFreeSpace(gctx, &storagetypes.QueryClientFreeSpace{Address: a})
-		if err == nil && fr.BytesFree != p.SpaceAvailable-s.foot[a] {
-			w.Violate("C07:free-space-query:"+where, "account %s: free space query says %d, plan %d minus footprint %d", a, fr.BytesFree, p.SpaceAvailable, s.foot[a])
+		if err == nil && big.NewInt(fr.BytesFree).Cmp(new(big.Int).Sub(big.NewInt(p.SpaceAvailable), foot)) != 0 {
+			w.Violate("C07:free-space-query:"+where, "account %s: free space query says %d, plan %d minus footprint %s", a, fr.BytesFree, p.SpaceAvailable, foot)
 		}
 		if p.SpaceUsed > 0 {
 			o.everUse = true
@@ -126,7 +134,8 @@ func (o *oracleC07) AfterStep(w *World, st *Step, msgs []sdk.Msg, res *abci.Resp
 				if pp.End.Before(w.now) {
 					w.Violate("C07:post-on-expired-plan", "plan-paid PostFile by %s succeeded on a plan that ended %s (now %s)", pf.Creator, pp.End, w.now)
 				}
-				if pp.SpaceUsed+pf.FileSize*pf.MaxProofs > pp.SpaceAvailable {
+				need := new(big.Int).Add(big.NewInt(pp.SpaceUsed), new(big.Int).Mul(big.NewInt(pf.FileSize), big.NewInt(pf.MaxProofs)))
+				if need.Cmp(big.NewInt(pp.SpaceAvailable)) > 0 {
 					w.Violate("C07:post-beyond-space", "plan-paid PostFile by %s of %d bytes succeeded with %d of %d used", pf.Creator, pf.FileSize*pf.MaxProofs, pp.SpaceUsed, pp.SpaceAvailable)
 				}
 			}
@@ -153,7 +162,11 @@ func (o *oracleC07) AfterBegin(w *World, _ *abci.ResponseBeginBlock) {
 		where = "reward-drop"
 		w.Probe("reward_drop")
 		for a, f := range o.pre.foot {
-			if f > post.foot[a] {
+			pf := post.foot[a]
+			if pf == nil {
+				pf = new(big.Int)
+			}
+			if f.Cmp(pf) > 0 {
 				w.Probe("reward_drop_of_plan_file")
 			}
 		}
